@@ -59,6 +59,7 @@ type rig struct {
 	parts   []*participant
 	keyRaw  map[uint32][2][]byte // election key -> (pKey, cCols) as built by the vvm adapter
 	curKey  uint32
+	lastArm map[int64]int64 // goroutine -> instant (ns) of the timer it armed last
 }
 
 // scripted is the ITTLStorage one participant sees: the real vvm adapter over the real backend,
@@ -128,7 +129,9 @@ func (s *scripted) CompareAndSwap(key vvmstorage.TTLStorageImplKey, o, n string,
 func (s *scripted) CompareAndDelete(key vvmstorage.TTLStorageImplKey, val string) (bool, error) {
 	return s.call("cad", key, val, 0, func() (bool, error) { s.r.curKey = key; return s.inner.CompareAndDelete(key, val) })
 }
-func (s *scripted) Get(key vvmstorage.TTLStorageImplKey) (bool, string, error) { return s.inner.Get(key) }
+func (s *scripted) Get(key vvmstorage.TTLStorageImplKey) (bool, string, error) {
+	return s.inner.Get(key)
+}
 
 type apiCmd struct {
 	kind string // acq | rel | cln
@@ -150,7 +153,14 @@ type participant struct {
 type apiRet struct{ ctx context.Context }
 
 func newRig(backend string, np int) (*rig, error) {
-	r := &rig{clock: kit.NewClock(), pending: map[int64]*pcall{}, abort: make(chan struct{}), keyRaw: map[uint32][2][]byte{}}
+	r := &rig{clock: kit.NewClock(), pending: map[int64]*pcall{}, abort: make(chan struct{}), keyRaw: map[uint32][2][]byte{}, lastArm: map[int64]int64{}}
+	r.clock.OnNewTimer = func(d time.Duration) {
+		gid := goid()
+		at := r.clock.Now().Sub(kit.Epoch).Nanoseconds() + d.Nanoseconds()
+		r.mu.Lock()
+		r.lastArm[gid] = at
+		r.mu.Unlock()
+	}
 	st, cleanup, err := kit.NewBackend(backend, r.clock)
 	if err != nil {
 		return nil, err
@@ -297,6 +307,12 @@ func (r *rig) settle() (map[int64][2]string, error) {
 		runtime.Gosched()
 		time.Sleep(20 * time.Microsecond)
 	}
+}
+
+func (r *rig) armed(gid int64) int64 {
+	r.mu.Lock()
+	defer r.mu.Unlock()
+	return r.lastArm[gid]
 }
 
 func (r *rig) nowNs() int64 { return r.clock.Now().Sub(kit.Epoch).Nanoseconds() }
